@@ -114,6 +114,9 @@ func genC03(c *ctx) {
 			last.OracleFail = fmt.Sprintf("Validate returned code %d but per-caveat/per-request clearing says cleared=%v", code, allOK)
 		}
 	}
+	if f := declinedAttestationOracle(); f != "" {
+		s.st.Add(&cs.Case{Coq: coqw.App("KAccessValid", m.Acc{Kind: "ABare", Valid: true}.Coq(), coqw.N(0)), Desc: map[string]any{"op": "a caveat type with an IsAttestation method that answers false"}, Class: "declined-attestation", Nontrivial: true, OracleFail: f})
+	}
 	// unevaluable caveats and wrong access kinds, one by one
 	now := m.T{Sec: 1700000000}
 	for _, k := range append(append([]string{}, flyioKinds...), otherKinds...) {
@@ -124,6 +127,60 @@ func genC03(c *ctx) {
 			}
 		}
 	}
+}
+
+// a user-defined caveat type that HAS the IsAttestation method and answers false: it is an ordinary caveat, every request it
+// prohibits is denied (only caveats that answer true are skipped by clearing)
+type hcDeclined struct {
+	V uint64 `json:"v"`
+}
+
+func (*hcDeclined) CaveatType() macaroon.CaveatType { return macaroon.CavMinUserDefined + 41 }
+func (*hcDeclined) Name() string                    { return "HarnessDeclined" }
+func (*hcDeclined) IsAttestation() bool             { return false }
+func (c *hcDeclined) Prohibits(macaroon.Access) error {
+	if c.V == 0 {
+		return nil
+	}
+	return fmt.Errorf("%w: harness caveat", macaroon.ErrUnauthorized)
+}
+
+var hcDeclinedOnce bool
+
+func declinedAttestationOracle() string {
+	if !hcDeclinedOnce {
+		hcDeclinedOnce = true
+		macaroon.RegisterCaveatType(&hcDeclined{})
+	}
+	deny, allow := &hcDeclined{V: 1}, &hcDeclined{V: 0}
+	acc := m.Acc{Kind: "ABare", Valid: true, Now: m.T{Sec: 1700000000}}.Go()
+	if macaroon.IsAttestation(deny) {
+		return "IsAttestation reports true for a caveat whose IsAttestation method answers false"
+	}
+	if macaroon.NewCaveatSet(deny).Validate(acc) == nil {
+		return "a prohibiting caveat whose IsAttestation method answers false is skipped by clearing"
+	}
+	if err := macaroon.NewCaveatSet(allow).Validate(acc); err != nil {
+		return "a permitting caveat whose IsAttestation method answers false denies: " + err.Error()
+	}
+	key := macaroon.NewSigningKey()
+	tok, _ := macaroon.New([]byte("k"), "https://declined.test", key)
+	if err := tok.Add(deny); err != nil {
+		return "an ordinary caveat (IsAttestation answers false) cannot be added to a permission token: " + err.Error()
+	}
+	enc, _ := tok.Encode()
+	dm, err := macaroon.Decode(enc)
+	if err != nil {
+		return "setup: " + err.Error()
+	}
+	set, err := dm.Verify(key, nil, nil)
+	if err != nil {
+		return "a genuine token with such a caveat is rejected: " + err.Error()
+	}
+	if set.Validate(acc) == nil {
+		return "a verified token clears a request that its caveat (IsAttestation answers false) prohibits"
+	}
+	return ""
 }
 
 // ---------------------------------------------------------------- C09
@@ -169,7 +226,7 @@ func genC09(c *ctx) {
 	}
 	org := pN(1)
 	// exhaustive: string / prefix / integer sets with <= 2 entries (quick) or <= 3 (thorough)
-	ids := []string{"", "a", "ab", "b"}
+	ids := []string{"", "a", "ab", "b", "a/"}
 	var subsets [][]string
 	var rec func(start int, cur []string)
 	maxE := 2
@@ -186,7 +243,7 @@ func genC09(c *ctx) {
 		}
 	}
 	rec(0, nil)
-	reqs := []*string{nil, pS(""), pS("a"), pS("ab"), pS("abc"), pS("b"), pS("c")}
+	reqs := []*string{nil, pS(""), pS("a"), pS("ab"), pS("abc"), pS("b"), pS("c"), pS("a/"), pS("a/b"), pS("a//")}
 	for _, sub := range subsets {
 		// mask assignments: all combos for |sub| <= 2, sampled otherwise
 		var assigns [][]uint16
@@ -290,8 +347,13 @@ func genC10(c *ctx) {
 	r := c.r
 	// request well-formedness: every presence pattern of the hierarchy fields x feature value
 	for bits := 0; bits < 1<<10; bits++ {
-		for fi, feat := range []string{"litefs-cloud", "wg", "litefs-cloud"} {
+		for fi, feat := range []string{"litefs-cloud", "wg", "litefs-cloud", ""} {
 			if bits&4 == 0 && feat == "wg" {
+				continue
+			}
+			// fourth round: every named string field is present and EMPTY (a pointer to ""): still named
+			emptyStr := fi == 3
+			if emptyStr && bits&(4|8|16|32|64|128|512) == 0 {
 				continue
 			}
 			// third round: the command is present but EMPTY (non-nil empty slice) - only where a command is named
@@ -332,6 +394,13 @@ func genC10(c *ctx) {
 			}
 			if bits&512 != 0 {
 				a.MachineFeature = pS("mf")
+			}
+			if emptyStr {
+				for _, f := range []**string{&a.Storage, &a.Machine, &a.Volume, &a.AppFeature, &a.Cluster, &a.MachineFeature} {
+					if *f != nil {
+						*f = pS("")
+					}
+				}
 			}
 			s.accessValid(a, "wellformed/exhaustive")
 		}
